@@ -213,32 +213,46 @@ CLAIMS['C05'] = dict(
 
 # rules added while triaging seeded changes and replayed defects (see DESIGN.md 8.4/8.5); appended to the decided text of each claim
 EXTRA = {
-    'C05': 'R05.2: token lists are rendered with line breaks / line numbers / file names only by the printers of the Token class.',
+    'C05': 'R05.2: token lists are rendered with line breaks / line numbers / file names only by the printers of the Token class. R05.3: a token line is compared with a '
+           'non-token line (directive, suppression) only together with a same-file test.',
     'C10': 'R10.4: the CHAR_MIN / CHAR_MAX limit defines follow the plain-char signedness (one known finding).',
     'C13': 'R13.5: every signed 64-bit division / modulo with a non-literal divisor is guarded against zero and LLONG_MIN / -1. R13.6: every non-null write of '
            'Type::BaseInfo::type is dominated by a negative findDependency test (the recursive hierarchy walkers rely on an acyclic base graph).',
-    'C14': 'R14.3: every local pointer whose id is written as a reference attribute is added unconditionally to the collection its defining elements are emitted from.',
+    'C14': 'R14.3: every local pointer whose id is written as a reference attribute is added unconditionally to the collection its defining elements are emitted from. '
+           'R14.4: start and end tag of a container element are written in one block with only non-throwing dump writers in between.',
     'C15': 'R15.1 also requires lossless operands (three known findings: fixInvalidChars in serialize). R15.4: Executor::hasToLog passes every internal message. '
            'R15.5: suppression state reported by several workers is merged (add, else update).',
     'C16': 'The protected set of a mutex is the union of the majority set and the fields some method modifies under the lock (contradiction rule); pointers to protected '
            'elements must not outlive the lock scope.',
-    'C17': 'R17.4: function-local statics reachable from CppCheck::check are not initialised from parameters, locals or this.',
-    'C18': 'R18.5: no commutative accumulation of sub-hashes. R18.6: the key includes the name of every loaded file. R18.1/R18.2 cover the helpers of the key function.',
+    'C17': 'R17.4: function-local statics reachable from CppCheck::check are not initialised from parameters, locals or this. R17.5: the TU-relative Suppression::fileIndex is read '
+           'only by the per-unit comment processing.',
+    'C18': 'R18.5: no commutative accumulation of sub-hashes. R18.6: the key includes the name of every loaded file. R18.1/R18.2 cover the helpers of the key function. R18.7: '
+           'AnalyzerInformation::reopen writes the stored content back unchanged. R18.8: the files.txt lookup returns a tail match only when no entry has exactly the path.',
     'C19': 'R19.2 also requires Settings::includePaths in the key. R19.4: option flags are position-coded or use distinct literal markers. R19.5: the suppression dump used '
            'for the key omits inline suppressions only.',
-    'C20': 'R20.5: in CppCheck::checkInternal no call that can report a finding is executed after a call that reaches AnalyzerInformation::close().',
-    'C21': 'R21.5: every removal from the list of pending read pipes is dominated by "handleRead returned false".',
-    'C22': 'R22.6: the reader keeps every parsed record. R22.7: numeric members are restored through a conversion whose type covers the member type.',
-    'C23': 'R23.5: Settings::basePaths is read in lib/ only as the argument of Path::getRelativePath (one implementation for finding and suppression file names).',
-    'C26': 'R26.6: the duplicate filter in front of the text / XML / SARIF writers does not depend on the output format (its dependence on --template is a known finding).',
+    'C20': 'R20.5: in CppCheck::checkInternal no call that can report a finding is executed after a call that reaches AnalyzerInformation::close(). R20.6: reopen keeps the stored '
+           'content. R20.7: nothing in cli/ or lib/ calls Settings::terminate() except the option parser (no soft stop that would close partial cache files).',
+    'C21': 'R21.5: every removal from the list of pending read pipes is dominated by "handleRead returned false". R21.6: maps keyed by a pipe descriptor drop the entry where the '
+           'descriptor is closed.',
+    'C22': 'R22.6: the reader keeps every parsed record. R22.7: numeric members are restored through a conversion whose type covers the member type. R22.8: all writers of the '
+           'my-id / call-id join keys encode the id the same way.',
+    'C23': 'R23.5: Settings::basePaths is read in lib/ only as the argument of Path::getRelativePath (one implementation for finding and suppression file names). R23.6: the macro arm of '
+           'Suppression::isSuppressed does not match on the file of the #define.',
+    'C26': 'R26.6: the duplicate filter in front of the text / XML / SARIF writers does not depend on the output format (its dependence on --template is a known finding). R26.7: the '
+           'level and locations of a SARIF result are computed from the finding itself, not looked up by rule id.',
     'C27': 'R27.3: functions that select one ValueFlow::Value test the severity / certainty options only after the selection loop.',
     'C28': 'R28.4: CppCheck::getErrorMessages passes the caller\'s logger to every documentation emitter.',
     'C29': 'Containers with a user comparator that compares the pointers themselves count as address-ordered; key types that are template parameters are resolved through the '
            'call sites; appends to sequence containers and early exits count as order-capturing (one known finding: productParams).',
-    'C34': 'R34.6: internal (ctuinfo) messages pass the executors\' gate unfiltered.',
-    'C36': 'R36.3: the grouping loop iterates the complete list built by the SAX handler (alias, order-only derivation, or a helper that keeps every element).',
-    'C24': 'R24.2 counts Suppression::isSuppressed among the parent-side consumers; R24.3 requires add-or-merge on the failure path of addSuppression.',
-    'C25': 'R25.1 accepts accounting before or after the forward on every path (post-dominance).',
+    'C34': 'R34.6: internal (ctuinfo) messages pass the executors\' gate unfiltered. R34.7: the whole-program stage deletes only its own temporary file, never the per-file ctu-info '
+           'files of the build dir; every non-trivial exit of executeAddonsWholeProgram has run the addons.',
+    'C36': 'R36.3: the grouping loop iterates the complete list built by the SAX handler (alias, order-only derivation, or a helper that keeps every element). R36.4: no groupby on '
+           'unsorted input / dict keyed on a non-unique field of a finding. R36.5: the per-file page annotates every finding of a line on every path.',
+    'C24': 'R24.2 counts Suppression::isSuppressed among the parent-side consumers; R24.3 requires add-or-merge on the failure path of addSuppression and a monotone (OR) merge in '
+           'updateSuppressionState.',
+    'C30': 'R30.2: per-argument configuration is looked up by argument number only through Library::getarg (which implements the any/variadic fallback).',
+    'C25': 'R25.1 accepts accounting before or after the forward on every path (post-dominance). R25.5: the exit-code accumulator is reset only in the prologue of checkInternal. R25.6: every '
+           'return of checkInternal that may follow a report returns the accumulator.',
 }
 for _k, _v in EXTRA.items():
     if _k in CLAIMS:
